@@ -148,6 +148,12 @@ What the translator decides (the spelling "dialect", shared with the hand models
   * `.exp()` etc. -> `Cv.Transc.exp` etc.; `.powi(k)` -> `Cv.powi x k`; `.ln_1p() .exp_m1() .max() .min()` and the
     constants `PI`, `f64::NAN` … have no default spelling: the caller supplies one (`methods`, `consts`).
   * `k as f64` -> `((k : Nat) : α)` / `((k : Int) : α)`.
+  * FALLBACKS (options `default_consts`, `auto_lits`, both on): an f64 associated constant / `std::f64::consts` constant without a
+    spelling in `consts` is a field of the class `Cv.F64Consts` (Model/F64Consts.lean: `f64::EPSILON` = `Cv.F64Consts.eps`, `PI` =
+    `Cv.F64Consts.pi`, …); an inexact decimal literal without a name in `named_lits` is `Cv.Lit.ofBits 0x<bits of the f64 it rounds
+    to>`.  They exist so that a source edit that INTRODUCES a constant or a literal still regenerates — the regenerated definition
+    mentions it and the equivalence theorem against the hand model fails — instead of leaving the subset (a mere note).
+    `tools/cv/srctie.py` adds the import and the two instance binders to a generated file only when it uses them.
 
 Usage
 -----
@@ -1083,6 +1089,23 @@ LEAN_KEYWORDS = {"at", "from", "end", "fun", "in", "then", "else", "if", "do", "
                  "structure", "Type", "Prop", "Sort", "import", "return", "for", "mut", "local", "deriving", "using",
                  "this", "nat", "λ"}
 
+# default spellings of the f64 associated constants / `std::f64::consts` (class `Cv.F64Consts`, Model/F64Consts.lean): the FALLBACK
+# when the caller gives none (`consts`), so that a source edit that introduces such a constant still regenerates (and the
+# equivalence theorem fails) instead of leaving the subset
+_F64C = {"EPSILON": "eps", "MAX": "maxv", "MIN": "minv", "MIN_POSITIVE": "minPositive", "INFINITY": "inf",
+         "NEG_INFINITY": "negInf", "NAN": "nan"}
+_F64M = {"PI": "pi", "TAU": "tau", "E": "e", "LN_2": "ln2", "LN_10": "ln10", "LOG2_E": "log2e", "LOG10_E": "log10e",
+         "SQRT_2": "sqrt2", "FRAC_1_SQRT_2": "frac1Sqrt2", "FRAC_PI_2": "fracPi2", "FRAC_PI_3": "fracPi3", "FRAC_PI_4": "fracPi4",
+         "FRAC_PI_6": "fracPi6", "FRAC_PI_8": "fracPi8", "FRAC_1_PI": "frac1Pi", "FRAC_2_PI": "frac2Pi",
+         "FRAC_2_SQRT_PI": "frac2SqrtPi"}
+DEFAULT_CONSTS = {}
+for _k, _v in _F64C.items():
+    for _pre in ("f64::", "std::f64::", "core::f64::"):
+        DEFAULT_CONSTS[_pre + _k] = "Cv.F64Consts." + _v
+for _k, _v in _F64M.items():
+    for _pre in ("", "consts::", "f64::consts::", "std::f64::consts::", "core::f64::consts::"):
+        DEFAULT_CONSTS[_pre + _k] = "Cv.F64Consts." + _v
+
 DEFAULT_METHODS = {          # receiver-first spelling;  {0} receiver, {1}.. arguments
     "exp": "Cv.Transc.exp {0}", "ln": "Cv.Transc.ln {0}", "sqrt": "Cv.Transc.sqrt {0}", "abs": "Cv.Transc.abs {0}",
     "sin": "Cv.Transc.sin {0}", "cos": "Cv.Transc.cos {0}", "tan": "Cv.Transc.tan {0}",
@@ -1129,6 +1152,8 @@ class Opts:
         self.adt_ctors = {}           # "Broadcast::Vstack" -> Lean constructor term (applied to the translated arguments)
         self.struct_types = {}        # struct type of a parameter -> [(field, type)]: binders `<param>_<field>`
         self.struct_methods = {}      # method on such a parameter -> list of fields: `m.shape()` = the tuple of these fields
+        self.default_consts = True    # `f64::EPSILON`, `consts::PI`, … without a spelling in `consts`: `Cv.F64Consts.*` (Model/F64Consts.lean)
+        self.auto_lits = True         # an inexact decimal literal without a name in `named_lits`: `Cv.Lit.ofBits 0x…` (its f64 bits)
         self.inline_helpers = True    # (mut) a call `Self::h(args)` / `h(args)` of a PRIVATE function of the same file that is not in `fns`
                                       # is inlined when its body is straight-line: `assert!` / `if c { panic!() }` / immutable `let`s, then
                                       # an optional value (the asserts become guards of the calling statement)
@@ -1177,11 +1202,15 @@ def parse_float_literal(text):
     return Fraction(s), is_float, suffix
 
 
-def lit_to_lean(text, named):
+def lit_to_lean(text, named, auto=False):
     """exact spelling of an f64 literal (see module docstring)"""
     if text in named:
         return named[text]
     q, _isf, _suf = parse_float_literal(text)
+    if Fraction(float(q)) != q and auto:
+        # an inexact decimal literal without a name: the f64 it is rounded to, by its bit pattern (class `Cv.Lit`)
+        import struct
+        return "(Cv.Lit.ofBits 0x%016X : α)" % struct.unpack("<Q", struct.pack("<d", float(q)))[0]
     if Fraction(float(q)) != q:
         raise Unsupported("float literal %s is not exactly representable: name it with `named_lits`" % text)
     if q < 0:
@@ -2851,7 +2880,7 @@ class Translator:
             if isf:
                 if suf == "f32":
                     raise Unsupported("f32 literal")
-                return lit_to_lean(e.text, o.named_lits), F
+                return lit_to_lean(e.text, o.named_lits, o.auto_lits), F
             if suf in INT_SUFFIXES:
                 return "(%d : %s)" % (q, "Int" if suf.startswith("i") else "Nat"), I if suf.startswith("i") else U
             return str(int(q)), INTLIT
@@ -3050,6 +3079,9 @@ class Translator:
                 raise Unsupported("const %s: %s" % (key, ty))
             e = Parser(self.src, *rng).expr()
             return self.atom(self.fexpr(e, {}))            # inlined initializer (consts see no locals)
+        if o.default_consts and key in DEFAULT_CONSTS and key not in env:
+            self.uses.add("Cv.F64Consts")
+            return "(%s : α)" % DEFAULT_CONSTS[key]
         raise Unsupported("constant `%s` has no spelling (option `consts`)" % key) if last else None
 
     def binop(self, e, env):
@@ -4120,9 +4152,13 @@ def _selftest():
     refuse("looped", "let mut")
     refuse("mutates", "assignment")
     refuse("closure", "parameter x")
-    refuse("inexact", "not exactly representable")
-    refuse("named", "0.3275911")
-    refuse("named", "PI", consts={"BAD": "c"})
+    refuse("inexact", "not exactly representable", auto_lits=False)
+    refuse("named", "0.3275911", auto_lits=False)
+    refuse("named", "PI", consts={"BAD": "c"}, default_consts=False)
+    # fallbacks (so that an edit introducing a literal / constant regenerates and fails its theorem instead of leaving the subset):
+    # an inexact literal is the f64 it rounds to, by bits; f64 / consts constants are the fields of `Cv.F64Consts`
+    check("inexact", "(x * (Cv.Lit.ofBits 0x3FB999999999999A : α))")
+    check("named", "((x * (Cv.Lit.ofBits 0x3FD4F740A93D7B8C : α)) + (((Cv.F64Consts.pi : α) * (Cv.F64Consts.pi : α)) / ((6 : Nat) : α)))")
     check("named", "((x * c) + ((pi * pi) / ((6 : Nat) : α)))", consts={"BAD": "c", "PI": "pi"})
     refuse("unknown_method", "cbrt")
     refuse("ln1p", "ln_1p")
@@ -4133,7 +4169,7 @@ def _selftest():
     check("after_loop", "(pi / (g (1 - z)))", branch="then", consts={"PI": "pi"}, fns={"after_loop": "g"})
     check("P::f", "((a * x) + ((n : Nat) : α))")
     check("P::m", "if a > 1 then .fin a else if (0 < a) ∧ (a ≤ 1) then .inf else .nan", moment=(".fin", ".inf", ".nan"))
-    refuse("P::m", "f64::INFINITY")
+    refuse("P::m", "f64::INFINITY", default_consts=False)
     check("P::g", "((P_m a n) * ((2 : Nat) : α))", self_calls={"m": "P_m"})
     check("mk!::fwd", "(Cv.Transc.exp ((-(Cv.powi (x - y) 2)) / (((2 : Nat) : α) * k.a)))",
           self_struct=("k", "K α", {"a": "a"}))
